@@ -238,8 +238,13 @@ func peelPacket(buf []byte, keys [][]byte) (*peeled, error) {
 
 // peelStream parses everything one side wrote on a stream: optional label
 // header, then one or more frames (encrypted: encryptMsg|len|ciphertext).
-func peelStream(buf []byte, keys [][]byte, encrypted bool) (label string, frames [][]byte, err error) {
+func peelStream(buf []byte, keys [][]byte, encrypted bool, implicitLabel ...string) (label string, frames [][]byte, err error) {
 	rest := buf
+	if len(implicitLabel) > 0 {
+		// the accepting side of a stream writes no label header but still
+		// authenticates with its label
+		label = implicitLabel[0]
+	}
 	if len(rest) > 0 && rest[0] == ml.VHasLabelMsg {
 		if len(rest) < 2 || len(rest) < 2+int(rest[1]) {
 			return "", nil, fmt.Errorf("truncated label header")
